@@ -38,6 +38,8 @@ def design_checks(c):
             ("MC_Ledger_cb.cfg", "Ledger design with coinbase")]
     if c.tier == "quick":
         cfgs = [cfgs[c.seed % 2]]        # one of the two per quick run (they differ only in where the fees go)
+    else:
+        cfgs.append(("MC_Ledger_big.cfg", "Ledger design, 3 transactions per block"))
     for cfg, what in cfgs:
         c.require_ok(vlib.tlc(SPEC_DIR, "MC_Ledger", cfg, c.work, timeout=900), what)
 
@@ -85,7 +87,7 @@ def handmade():
         return dict(name="Tx", tid=tid, how=how)
     return [
         [B, tx("deploy"), tx("xfer"), tx("stake"), tx("vault"), E, B, tx("callok"), tx("callfail"), tx("name"), tx("xfer3"), tx("vote1"), E,
-         B, tx("callfail3"), tx("stake3"), tx("xfer", "replay"), tx("forged"), tx("foreign"), tx("over"), E, B, tx("xfercb"), tx("unstake"), tx("name3"), E],
+         B, tx("callfail3"), tx("stake3"), tx("fdok"), tx("fdfail"), tx("fdfail", "replay"), tx("fdfail3"), tx("xfer", "replay"), tx("forged"), tx("foreign"), tx("over"), E, B, tx("xfercb"), tx("unstake"), tx("name3"), E],
         [B, tx("xfer"), tx("xfer", "dup"), tx("xfer", "gap"), tx("stakelow"), tx("xferself"), E, B, tx("xfer"), tx("xfer", "replay"), tx("forged3"), E, B, E],
         [B, tx("vault"), tx("stake"), tx("stake3"), E, B, tx("vote1"), tx("vote3"), tx("vote1"), E, B, E, B, tx("deploy"), tx("callfail"), tx("callok"), tx("callok", "replay"), E, B, tx("callfail3"), tx("callfail", "gap"), E],
     ]
